@@ -574,7 +574,7 @@ def _operation_params(doc: dict, path: str, method: str) -> list[dict]:
         if key in seen:
             continue
         seen.add(key)
-        if "schema" in p:
+        if "schema" in p or "content" in p:
             res.append(p)
     return res
 
@@ -631,6 +631,8 @@ def _req_condition(doc, package, path, method, op, ep, alias, list_max, str_max,
             fn = f"req_{alias[3:]}"
             why = f"document declares parameter {name!r} in {loc} for {method.upper()} {path}, but the generated function has no argument for it"
             return f'def {fn}() -> bool:\n    """\n    post: _\n    """\n    return missing_piece({why!r})\n', fn
+        if "schema" not in p:
+            raise SkeletonError(f"parameter {name!r} is described by `content`: no oracle for its serialisation")
         pyname = str(prop.python_name)
         py, wire = f"a{i}", f"w{i}"
         required = bool(p.get("required")) or loc == "path"
